@@ -29,4 +29,4 @@ if [ "${SUITE:-0}" = 1 ]; then
   echo "   exit=$S"; [ $S -ne 0 ] && grep -v "^ok\|no test files" $T/suite.log | tail -5
 fi
 echo "== check $PROP on patched tree"
-/verif/bin/xmppcheck -property $PROP -repo $T/repo -verif $T/verif | cut -c1-400 | tail -8
+${XMPPCHECK:-/verif/bin/xmppcheck} -property $PROP -repo $T/repo -verif $T/verif | cut -c1-400 | tail -8
